@@ -37,7 +37,7 @@ OTHER_NAMES = {
     105: "RecursionError", 106: "OverflowError", 107: "InvalidOperation", 108: "RuntimeError",
     109: "UnicodeDecodeError", 110: "MemoryError", 111: "ZeroDivisionError", 112: "StopIteration",
     113: "AssertionError", 114: "LookupError", 115: "OSError", 116: "NotImplementedError", 117: "EOFError",
-    118: "BufferError", 119: "JSONDecodeError",
+    118: "BufferError", 119: "JSONDecodeError", 120: "UserWarning", 121: "DeprecationWarning",
 }
 NAME_ID = {v: k for k, v in {**PERR_NAMES, **OTHER_NAMES}.items()}
 RAISABLE_PERR = [1, 2, 3, 16]
@@ -219,6 +219,8 @@ def _item_id(e):
         return None
     if isinstance(it, int):
         return it
+    if it in ("_obj_self", "_d"):
+        return {"_obj_self": 60, "_d": 61}[it]
     if isinstance(it, str):
         m = re.search(r"(\d+)$", it)
         if m and "<" not in it:
@@ -230,6 +232,8 @@ def _info(e):
     from utype.utils.exceptions import ParseError
     perr = isinstance(e, ParseError)
     d = {"perr": perr, "cls": cls_id(e), "origin": None, "item": None}
+    if perr and not (isinstance(e, TypeError) and isinstance(e, ValueError)):
+        d["not_both"] = True        # "ParseError (which is both a TypeError and a ValueError)"
     if perr:
         oe = getattr(e, "origin_exc", None)
         if isinstance(oe, BaseException):
@@ -266,6 +270,14 @@ def _canon(E, v, depth=0):
     if isinstance(v, dict):
         return {"map": [[_canon(E, k, depth + 1), _canon(E, x, depth + 1)] for k, x in v.items()]}
     return {"other": type(v).__name__}
+
+
+def _bad_container(base, how, exc_obj):
+    """an instance-compatible subclass of list / tuple / set / frozenset / dict whose own protocol raises"""
+    def boom(*a, **k):
+        raise exc_obj
+    name = {"iter": "__iter__", "len": "__len__", "items": "items"}[how]
+    return type("Bad" + base.__name__, (base,), {name: boom})
 
 
 def _mk_input(E, j):
@@ -321,13 +333,35 @@ def _impl_rule(case):
         T.pre_validate = classmethod(pre_validate)
         T.post_validate = classmethod(post_validate)
     opts = _options(E, case.get("opts", {}))
+    value = _mk_input(E, case["input"])
+    bc = case.get("bad_container")
+    if bc:
+        value = _bad_container(type(value), bc["how"], E["make_exc"](bc["cls"]))(value)
     try:
-        r = T(_mk_input(E, case["input"]), context=opts.make_context())
+        with _warn_filter(case):
+            r = T(value, context=opts.make_context())
         out = {"out": "ok", "value": _canon(E, r)}
     except Exception as e:
         out = _exc_out(e)
     out["hook_raised"] = bool(E["state"]["flags"].get("hook"))
     return out
+
+
+def _warn_filter(case):
+    """`warn_error`: the application turned warnings into errors (python -W error)"""
+    import warnings
+    cm = warnings.catch_warnings()
+    cm.__enter__()
+    warnings.simplefilter("error" if case.get("warn_error") else "ignore")
+
+    class _Ctx:
+        def __enter__(self):
+            return self
+
+        def __exit__(self, *a):
+            cm.__exit__(*a)
+            return False
+    return _Ctx()
 
 
 def _impl_logical(case):
@@ -344,7 +378,8 @@ def _impl_logical(case):
 
 
 def _key_name(k):
-    return f"k{k}"
+    # two key ids stand for the parameter names of the (pre-fix) generated __init__
+    return {60: "_obj_self", 61: "_d"}.get(k, f"k{k}")
 
 
 def _field(E, f, param=False):
@@ -425,6 +460,7 @@ def _impl_schema(case):
     S = _mk_class(E, "S", case["fields"], case.get("opts", {}), kind, 1 if case.get("entry") == "nested" else 0,
                   addition_t=case.get("addition_t"))
     top = "S"
+    _wf = _warn_filter(case)
     try:
         entry = case.get("entry")
         if entry == "from":
@@ -450,11 +486,12 @@ def _impl_schema(case):
             inst = S(**{_key_name(k): _mk_input(E, v) for k, v in case["kwargs"]})
         kv = []
         for k, v in _inst_items(inst):
-            kid = int(k[1:]) if k[:1] == "k" and k[1:].isdigit() else int(k) if k.isdigit() else -1
+            kid = int(k[1:]) if k[:1] == "k" and k[1:].isdigit() else int(k) if k.isdigit() else {"_obj_self": 60, "_d": 61}.get(k, -1)
             kv.append([kid, _canon(E, v)])
         out = {"out": "ok", "value": sorted(kv, key=lambda p: p[0])}
     except Exception as e:
         out = _exc_out(e)
+    _wf.__exit__(None, None, None)
     out["hooks"] = flags.get("hooks", 0)
     out["hook"] = top in flags.get("hooked", [])
     out["hook_raised"] = bool(flags.get("hook"))
@@ -779,6 +816,31 @@ def _hv(j, depth=0):
             It.__len__ = ln
             It.__iter__ = lambda self: iter([1, 2])
         return It()
+    if k == "sub":
+        # an instance of a SUBCLASS of a builtin container (the converters hand it back unchanged) whose own protocol
+        # raises or never ends
+        import itertools
+        base = {"list": list, "tuple": tuple, "set": set, "dict": dict}[j["base"]]
+        how = j["how"]
+
+        def boom(*a, **kw):
+            raise OSError(how)
+        ns = {}
+        if how == "iter_raises":
+            ns["__iter__"] = boom
+        elif how == "len_raises":
+            ns["__len__"] = boom
+        elif how == "getitem_raises":
+            ns["__getitem__"] = boom
+        elif how == "items_raises":
+            ns["items"] = boom
+            ns["keys"] = boom
+        elif how == "iter_endless":
+            ns["__iter__"] = lambda self: itertools.count()
+        elif how == "items_endless":
+            ns["items"] = lambda self: ((("k%d" % i), i) for i in itertools.count())
+        cls = type("Sub" + base.__name__, (base,), ns)
+        return cls({"a": 1}) if base is dict else cls([1, 2])
     if k == "selfref":
         if j.get("kind") == "dict":
             d = {}
@@ -969,7 +1031,7 @@ def _hfunc(fd, state):
 
 def _impl_hostile(case):
     import warnings
-    warnings.simplefilter("ignore")
+    warnings.simplefilter("error" if case.get("warn_error") else "ignore")
     state = {"classes": {}, "flags": {}}
     tgt = case["target"]
     try:
@@ -1044,6 +1106,7 @@ def _impl_hostile(case):
         tb = traceback.extract_tb(e.__traceback__)
         where = f"{os.path.basename(tb[-1].filename)}:{tb[-1].lineno}" if tb else ""
         out = {"out": "raise", "info": {"perr": isinstance(e, ParseError), "cls": cls_id(e), "name": type(e).__name__,
+                                         "not_both": isinstance(e, ParseError) and not (isinstance(e, TypeError) and isinstance(e, ValueError)),
                                          "where": where, "ret": isinstance(getattr(e, "item", None), str) and (e.item == "<return>" or e.item.startswith("<generator"))}}
     out["body"] = bool(state["flags"].get("body"))
     # only the instance the caller asked for counts (a nested instance may be complete before a sibling fails)
@@ -1113,6 +1176,16 @@ def gen_rule(rng):
             xs = list(dict.fromkeys(xs))
         case.update(origin=origin, args={"seq": t}, input={"seq": ik, "xs": xs},
                     script=_script_for(rng, [0], [t], set(xs), allow_unhashable=origin in ("set", "frozenset"), p_id=0.55))
+        if rng.random() < 0.12 and ORIGINS[origin] is [list, tuple, set, frozenset][ik]:
+            # an instance of a subclass of the origin comes back from the converter unchanged: its own protocol raises
+            cid = rng.choice(RAISABLE_OTHER + RAISABLE_PERR)
+            how = rng.choice(["iter", "len"] if ik < 2 else ["iter"])
+            if how == "len":
+                cid = rng.choice([c for c in RAISABLE_OTHER if c != 100])   # list()'s length hint swallows TypeError (and its subclasses)
+            case["bad_container"] = {"how": how, "cls": cid}
+            case["script"].append([5, 4, 9999, {"raise": cid, "perr": cid < 100}])
+        if rng.random() < 0.1 and o["invalid_items"] != "throw":
+            case["warn_error"] = True
     elif sub == "tuple":
         ts = [rng.randrange(1, NCOMP) for _ in range(rng.randint(1, 3))]
         xs = [rng.choice(U) for _ in range(rng.randint(0, 5))]
@@ -1122,8 +1195,16 @@ def gen_rule(rng):
         if rng.random() < 0.2:
             o["no_data_loss"] = True
         types = set(ts) | ({o["addition"]["t"]} if isinstance(o["addition"], dict) else set())
-        case.update(origin="tuple", args={"tuple": ts}, input={"seq": rng.choice([0, 1]), "xs": xs},
+        ik = rng.choice([0, 1])
+        case.update(origin="tuple", args={"tuple": ts}, input={"seq": ik, "xs": xs},
                     script=_script_for(rng, [0], types, set(xs), p_id=0.6))
+        if rng.random() < 0.12 and ik == 1:
+            cid = rng.choice(RAISABLE_OTHER + RAISABLE_PERR)
+            how = rng.choice(["iter", "len"])
+            if how == "len":
+                cid = rng.choice([c for c in RAISABLE_OTHER if c != 100])
+            case["bad_container"] = {"how": how, "cls": cid}
+            case["script"].append([5, 4, 9999, {"raise": cid, "perr": cid < 100}])
     elif sub == "map":
         kt = rng.randrange(1, NCOMP)
         vt = rng.choice([None, rng.randrange(1, NCOMP)])
@@ -1147,6 +1228,10 @@ def gen_rule(rng):
                 if rng.random() < 0.5:
                     sc2.append([5, 3, k, {"raise": rng.choice(RAISABLE_OTHER), "perr": False}])
         case.update(origin="dict", args={"map": [kt, vt]}, input={"map": kv}, script=sc2)
+        if rng.random() < 0.12:
+            cid = rng.choice(RAISABLE_OTHER + RAISABLE_PERR)
+            case["bad_container"] = {"how": "items", "cls": cid}
+            case["script"].append([5, 4, 9999, {"raise": cid, "perr": cid < 100}])
     elif sub == "comp":
         t0 = rng.randrange(1, NCOMP)
         tok = rng.choice(U)
@@ -1255,6 +1340,7 @@ def gen_schema(rng):
         o["min_params"] = rng.choice([1, 2, 3])
     keys = [a for f in fields for a in f["aliases"]]
     chosen = [k for k in keys if rng.random() < 0.6] + [k for k in (50, 51) if rng.random() < 0.3]
+    chosen += [k for k in (60, 61) if rng.random() < 0.12]      # "_obj_self" / "_d": data keys like any other
     rng.shuffle(chosen)
     sc = []
     kwargs = []
@@ -1280,6 +1366,8 @@ def gen_schema(rng):
     case["script"] = sc
     case["kwargs"] = kwargs
     case["cls_kind"] = rng.choice(["Schema", "DataClass", "DataClass", "decorated"])
+    if rng.random() < 0.06:
+        case["warn_error"] = True
     r_entry = rng.random()
     if r_entry < 0.22 and not conflict:
         # the class as a field of an outer class: the outer options reach it when they say override
@@ -1536,7 +1624,7 @@ TS_SPECIAL = [
     {"ty": "float", "s": "inf"}, {"ty": "float", "s": "-inf"}, {"ty": "float", "s": "nan"},
     {"ty": "str", "s": "inf"}, {"ty": "str", "s": "-Infinity"}, {"ty": "str", "s": "nan"}, {"ty": "str", "s": "1e400"},
     {"ty": "str", "s": "-1e999"}, {"ty": "bytes", "s": "Infinity"}, {"ty": "dec", "s": "Infinity"}, {"ty": "dec", "s": "-Infinity"},
-    {"ty": "dec", "s": "NaN"}, {"ty": "dec", "s": "sNaN"}, {"ty": "list", "s": "inf"}, {"ty": "str", "s": "  inf "},
+    {"ty": "dec", "s": "NaN"}, {"ty": "dec", "s": "sNaN"}, {"ty": "dec", "s": "1E+999999"}, {"ty": "dec", "s": "-1e400"}, {"ty": "dec", "s": "1e308"}, {"ty": "list", "s": "inf"}, {"ty": "str", "s": "  inf "},
     {"ty": "str", "s": "1" * 400}, {"ty": "int", "s": str(10 ** 400)}, {"ty": "int", "s": str(-10 ** 309)},
 ]
 W_TS = 20000000000
@@ -1681,6 +1769,13 @@ for _how in ("gen", "genpairs", "count", "cycle", "repeat", "map", "range", "lon
 H_VALUES.update({
     "[lazy_gen]": _V("list", xs=[_V("lazy", how="gen")]), "{'a':lazy_gen}": _V("dict", kv=[["a", _V("lazy", how="gen")]]),
     "(lazy_count,1)": _V("tuple", xs=[_V("lazy", how="count"), 1]), "{'a':[lazy_iterobj]}": _V("dict", kv=[["a", _V("list", xs=[_V("lazy", how="iterobj")])]]),
+    "sub_list_iter_raises": _V("sub", base="list", how="iter_raises"), "sub_list_len_raises": _V("sub", base="list", how="len_raises"),
+    "sub_tuple_getitem_raises": _V("sub", base="tuple", how="getitem_raises"), "sub_tuple_len_raises": _V("sub", base="tuple", how="len_raises"),
+    "sub_tuple_iter_raises": _V("sub", base="tuple", how="iter_raises"), "sub_set_iter_raises": _V("sub", base="set", how="iter_raises"),
+    "sub_dict_items_raises": _V("sub", base="dict", how="items_raises"), "sub_list_iter_endless": _V("sub", base="list", how="iter_endless"),
+    "sub_dict_items_endless": _V("sub", base="dict", how="items_endless"), "[sub_list_iter_raises]": _V("list", xs=[_V("sub", base="list", how="iter_raises")]),
+    "{'_obj_self':1}": _V("dict", kv=[["_obj_self", 1]]), "{'_d':5,'a':1}": _V("dict", kv=[["_d", 5], ["a", 1]]),
+    "{'_d':{'a':'abc'}}": _V("dict", kv=[["_d", _V("dict", kv=[["a", "abc"]])]]), "{'self':1,'cls':2}": _V("dict", kv=[["self", 1], ["cls", 2]]),
     "selfref_list": _V("selfref", kind="list"), "selfref_dict": _V("selfref", kind="dict"), "[selfref]": _V("list", xs=[_V("selfref", kind="list")]),
     "bad_index": _V("bad", what="index"), "bad_float": _V("bad", what="float"), "bad_iter": _V("bad", what="iter"), "bad_next": _V("bad", what="iter+next"),
     "bad_getitem": _V("bad", what="getitem+len"), "bad_contains": _V("bad", what="contains"), "bad_format": _V("bad", what="format"),
@@ -1747,6 +1842,14 @@ H_FUNCS = {
 
 
 def hostile_cases(rng, n, full=False):
+    out = _hostile_cases(rng, n, full)
+    for c in out:
+        if not full and rng.random() < 0.03:
+            c["warn_error"] = True      # python -W error
+    return out
+
+
+def _hostile_cases(rng, n, full=False):
     out = []
     tnames, vnames = list(H_TYPES), list(H_VALUES)
     if full:
@@ -1755,9 +1858,12 @@ def hostile_cases(rng, n, full=False):
                 if vn in ("lazy_genpairs", "lazy_next_forever", "lazy_len_forever") and ti % 5:
                     continue        # inputs that are expected to be killed by the watchdog (5 s each): every fifth type only
                 out.append({"kind": "hostile", "t": tn, "vn": vn, "target": {"type": H_TYPES[tn]}, "value": H_VALUES[vn]})
+    slow = ("lazy_genpairs", "lazy_next_forever", "lazy_len_forever", "sub_list_iter_endless", "sub_dict_items_endless")
     for _ in range(n):
         r = rng.random()
         vn = rng.choice(vnames)
+        if vn in slow and (n < 5000 or rng.random() < 0.7):
+            vn = rng.choice(vnames)     # values that are expected to be killed by the watchdog (5 s each) are kept rare
         v = H_VALUES[vn]
         if r < 0.45:
             tn = rng.choice(tnames)
@@ -1820,6 +1926,24 @@ def _mapping_reachable(j):
         return any(_mapping_reachable(x) for x in j.values())
     if isinstance(j, list):
         return any(_mapping_reachable(x) for x in j)
+    return False
+
+
+def _container_reachable(j):
+    if isinstance(j, dict):
+        if j.get("origin") in ("list", "tuple", "set", "frozenset", "dict") or j.get("plain") in ("list", "tuple", "set", "frozenset", "dict") or "schema" in j:
+            return True
+        return any(_container_reachable(x) for x in j.values())
+    if isinstance(j, list):
+        return any(_container_reachable(x) for x in j)
+    return False
+
+
+def _sub_how(v, hows):
+    if isinstance(v, dict):
+        if v.get("v") == "sub" and v.get("how") in hows:
+            return True
+        return any(_sub_how(x, hows) for x in v.get("xs", [])) or any(_sub_how(a, hows) or _sub_how(b, hows) for a, b in v.get("kv", []))
     return False
 
 
@@ -1987,7 +2111,8 @@ class C04(Check):
         opts = dict(case.get("opts", {}))
         if opts.get("no_data_loss") and opts.get("addition") is None:
             opts["addition"] = False        # Options.__init__: no_data_loss => addition=False unless given (options.py:151-155)
-        line = {"kind": k, "opts": opts, "script": case.get("script", []), "legacy": case.get("legacy", {})}
+        line = {"kind": k, "opts": opts, "script": case.get("script", []), "legacy": case.get("legacy", {}),
+                "warn_error": bool(case.get("warn_error"))}
         if k == "rule":
             inp = _tok_json(case["input"])
             line.update(origin=case["origin"], args=case.get("args"), validators=case.get("validators", []),
@@ -2024,9 +2149,28 @@ class C04(Check):
                         legacy_dt=bool(case.get("legacy", {}).get("dtContains")))
         elif k == "ts":
             q = ts_exact(case["x"])
-            line["ts"] = q if isinstance(q, str) else [q < 0, str(abs(q.numerator)), str(q.denominator)]
+            if isinstance(q, Fraction) and abs(q) >= 2 ** 1024 and case["x"]["ty"] in ("int", "dec"):
+                # beyond the float range only the class of the value matters to the model (the digits may be millions)
+                line["huge"] = case["x"]["ty"]
+                line["ts"] = [q < 0, "1", "1"]
+            else:
+                line["ts"] = q if isinstance(q, str) else [q < 0, str(abs(q.numerator)), str(q.denominator)]
             line["legacy_ts"] = bool(case.get("legacy", {}).get("tsLoop"))
         return line
+
+    def evaluate(self, cases):
+        """a watchdog kill must reproduce: cases reported as hanging are run once more, a few at a time (a busy machine
+        can make a 0.5 s conversion miss the 5 s deadline; a real hang hangs again)"""
+        impl_outs, model_outs = super().evaluate(cases)
+        again = [i for i, o in enumerate(impl_outs) if isinstance(o, dict) and o.get("hang")
+                 and self.spec(cases[i], o, None) and not self.classify(cases[i], o, "")]     # only unexplained ones
+        if again:
+            from .common import run_impl
+            second = run_impl(self.impl, [cases[i] for i in again], self.case_timeout, jobs=max(1, min(4, len(again))),
+                              extra_env=self.impl_env)
+            for i, o in zip(again, second):
+                impl_outs[i] = o
+        return impl_outs, model_outs
 
     # ---- correspondence ------------------------------------------------------------------------
     def compare(self, case, io, mo):
@@ -2086,7 +2230,7 @@ class C04(Check):
         # model ok with k divisions
         if case["x"]["ty"] == "dec":
             # utcfromtimestamp(Decimal) is a TypeError in CPython: the loop ends, the conversion fails afterwards
-            ok = io.get("out") == "raise" and io["info"]["perr"]
+            ok = io.get("out") == "raise" and io["info"]["perr"] and io["info"].get("origin") == 100
             return None if ok else f"Decimal timestamp: impl {io}"
         try:
             float(q)
@@ -2141,6 +2285,8 @@ class C04(Check):
             if case["kind"] == "hostile" and self._proviso(case):
                 return None
             return f"an exception that is not a ParseError escaped: {name} {io['info'].get('where', '')}"
+        if out == "raise" and io["info"].get("not_both"):
+            return "a ParseError that is not both a TypeError and a ValueError was raised"
         if out in ("raise", "collected"):
             ret = out == "raise" and io["info"].get("ret")
             if io.get("body") and not ret and not io.get("body_raised"):
@@ -2176,11 +2322,15 @@ class C04(Check):
         return False
 
     def classify(self, case, io, why):
+        if case.get("warn_error") and isinstance(io, dict) and io.get("out") == "raise" and io["info"].get("cls") in (120, 121):
+            return "warnings-as-errors"
         if case["kind"] == "hostile" and io.get("hang"):
             vals = [case.get("value")] + list(case.get("args", [])) + list(case.get("kwargs", {}).values())
             if any(_huge_exp_value(v) for v in vals):
                 return "huge-exponent-int"
-            if _mapping_reachable(case.get("target")) and any(_lazy_how(v, ("genpairs",)) for v in vals):
+            if _mapping_reachable(case.get("target")) and any(_lazy_how(v, ("genpairs",)) or _sub_how(v, ("items_endless",)) for v in vals):
+                return "endless-pairs-into-mapping"
+            if _container_reachable(case.get("target")) and any(_sub_how(v, ("iter_endless",)) for v in vals):
                 return "endless-pairs-into-mapping"
             if (_has_self_ref(case.get("target")) and any(_deep_dict(v) for v in vals)
                     and (case.get("ropts") or {}).get("collect_errors") and (case.get("ropts") or {}).get("override")):
